@@ -91,7 +91,7 @@ fn note(me: usize, tag: u64, a: u64, b: u64) {
     g.hist[me] = mix(mix(mix(h, tag), a), b);
 }
 
-const HANG_SECS: u64 = 20;
+const HANG_SECS: u64 = 120;
 
 impl Sched {
     fn fingerprint(inner: &Inner) -> u64 {
